@@ -238,7 +238,11 @@ func c19child(c *Ctx, rt *Routine) {
 			missing := hasAll(p.selectStops(op.Sel), req)
 			r.Check(op.Sel.HasDefault || (hasCtx && len(missing) == 0), "G1", key, site, "select watches the handler's context", "blocking select in a handler goroutine does not watch "+strings.Join(missing, ", "))
 		case "dyncall":
-			r.Check(strings.HasSuffix(op.Callee, ".opts.Handle"), "G1", key, site, "user Handle (contract: returns; v1: honours its context)", "UNDECIDED: dynamic call "+op.Callee)
+			if why := handleCtxProblem(p, rt, op.In); why != "" && strings.HasSuffix(op.Callee, ".opts.Handle") {
+				r.Fail("G1", key, site, why)
+			} else {
+				r.Check(strings.HasSuffix(op.Callee, ".opts.Handle"), "G1", key, site, "user Handle (contract: returns; v1: honours the context it is given, which the parent cancels)", "UNDECIDED: dynamic call "+op.Callee)
+			}
 		default:
 			if rt.isSubCall(op.In) {
 				continue
